@@ -21,6 +21,7 @@ Inductive stmt :=
 | SCallAttr (a f : N)               (* <alias a>.f<f>(); *)
 | SThrow                            (* throw "boom"; *)
 | SUseBuiltin (k : N)               (* 0 print(type(1)); 1 print(Vec); 2 print(type(print)); 3 print(RuntimeError); *)
+| SFiber (d f : N)                  (* Fiber.new(|| Fiber.new(|| ... f<f>() ...).call()).call();   d nested fibers *)
 | STry (body : list stmt)           (* try { body } catch e { print(type(e)); print(message of e); } *)
 | SBlock (body : list stmt).        (* { body } *)
 
@@ -178,9 +179,10 @@ Section Mech.
   Variable frames_max : nat.
   Variable hit_checks_loading : bool.
   Variable builtins_guarded : bool.
+  Variable loading_walks_chain : bool.
 
   Definition mstep := step nat (list top) (prog_loader prog) (prog_compiler prog cm) builtin_names frames_max
-                           hit_checks_loading builtins_guarded.
+                           hit_checks_loading builtins_guarded loading_walks_chain.
 
   Definition with_ms (x : xst) (s : state) : xst := mkx s (xout x) (hids x) (nexth x) (xflags x).
   Definition emit (x : xst) (l : string) : xst := mkx (ms x) (l :: xout x) (hids x) (nexth x) (xflags x).
@@ -236,6 +238,7 @@ Section Mech.
   | TkExec (ss : list stmt) (env : lenv)          (* a statement list *)
   | TkExec1 (s : stmt) (env : lenv)               (* one statement *)
   | TkCall (env : lenv) (w : value)               (* call_value *)
+  | TkFiber (k : nat) (f : N) (env : lenv)        (* call f<f> through k more nested fibers *)
   | TkTops (ts : list top) (src : nat).           (* the top level of module source `src` *)
 
   Fixpoint run_task (fuel : nat) (tk : task) (x : xst) {struct fuel} : res :=
@@ -307,6 +310,7 @@ Section Mech.
             | _ => let x1' := note_main_only x1 "RuntimeError" in
                    get_global x1' "RuntimeError" (fun x2 w => RNormal env (emit x2 (display_m (ms x2) w)))
             end)
+        | SFiber d f => run_task fuel' (TkFiber (N.to_nat d) f env) x
         | STry body =>
           let hid := nexth x in
           bind_s (do_step x EPushHandler) (fun x1 _ =>
@@ -347,6 +351,19 @@ Section Mech.
           | None => RIll "no such function"
           end
         | _ => RIll "not a function"
+        end
+      | TkFiber k f env =>
+        match k with
+        | O => get_global x (fn_name f) (fun x1 w => run_task fuel' (TkCall env w) x1)
+        | S k' =>
+          (* Fiber.new(|| ...).call(): the lambda is a closure of the active module; its frame is the first frame of
+             a new fiber; when it returns the fiber is finished and the caller resumes *)
+          get_global x "Fiber" (fun x1 _ =>
+          bind_s (do_step x1 (EFiberCall (active (ms x1)))) (fun x2 _ =>
+            match run_task fuel' (TkFiber k' f env) x2 with
+            | RNormal _ x3 => bind_s (do_step x3 EReturn) (fun x4 _ => RNormal env x4)
+            | r => r
+            end))
         end
       | TkTops ts src =>
         match ts with
@@ -448,6 +465,7 @@ Record sx := mksx { ss : sstate; sout : list string; sfl : string }.
 Inductive sresult :=
 | QNormal (env : senv) (x : sx)
 | QRaised (e : sexc) (x : sx)
+| QFatal (e : sexc) (x : sx)       (* an exception that left a fiber: nothing can catch it, the run is over *)
 | QFuel
 | QIll (why : string).
 
@@ -497,6 +515,7 @@ Section SpecEval.
   | SkExec (l : list stmt) (env : senv)
   | SkExec1 (s : stmt) (env : senv)
   | SkCall (env : senv) (w : svalue)
+  | SkFiber (k : nat) (f : N) (env : senv)
   | SkTops (ts : list top) (src : nat).
 
   Definition sset (cur : path) (x : sx) (nm : name) (v : svalue) : sx :=
@@ -577,6 +596,7 @@ Section SpecEval.
             | 2%N => sget cur x "type" (fun _ => sget cur x "print" (fun _ => QNormal env (semit x "<class BuiltIn>")))
             | _ => sget cur x "RuntimeError" (fun w => QNormal env (semit x (display_s w)))
             end)
+        | SFiber d f => srun_task fuel' cur depth (SkFiber (N.to_nat d) f env) x
         | STry body =>
           match srun_task fuel' cur depth (SkExec body ([] :: env)) x with
           | QNormal _ x1 => QNormal env x1
@@ -611,6 +631,19 @@ Section SpecEval.
           end
         | _ => QIll "not a function"
         end
+      | SkFiber k f env =>
+        match k with
+        | O => sget cur x (fn_name f) (fun w => srun_task fuel' cur depth (SkCall env w) x)
+        | S k' =>
+          (* a new fiber: its own nesting depth (the lambda is its first frame); an exception that is not caught
+             inside the fiber ends the run *)
+          sget cur x "Fiber" (fun _ =>
+            match srun_task fuel' cur 1 (SkFiber k' f env) x with
+            | QNormal _ x1 => QNormal env x1
+            | QRaised e x1 => QFatal e x1
+            | r => r
+            end)
+        end
       | SkTops ts src =>
         match ts with
         | [] => QNormal [] x
@@ -640,9 +673,9 @@ Section SpecEval.
     | MOk ts :: _ =>
       match sexec_tops fuel main_path ts 0 (mksx (spec_init startup_names) [] "") with
       | QNormal _ x => show_spec x "ok"
-      | QRaised (SXErr er) x =>
+      | QRaised (SXErr er) x | QFatal (SXErr er) x =>
         show_spec x ("dead " ++ kind_after_roundtrip (e_kind er) ++ "$Unhandled " ++ kind_class (e_kind er) ++ ": " ++ first_line (e_msgs er))
-      | QRaised (SXVal v) x => show_spec x ("dead RuntimeError$Unhandled exception: " ++ display_s v)
+      | QRaised (SXVal v) x | QFatal (SXVal v) x => show_spec x ("dead RuntimeError$Unhandled exception: " ++ display_s v)
       | QFuel => "FUEL"
       | QIll w => "ILL " ++ w
       end
@@ -653,10 +686,10 @@ Definition spec_obs (fuel : nat) : obs :=
     | MOk ts :: _ =>
       match sexec_tops fuel main_path ts 0 (mksx (spec_init startup_names) [] "") with
       | QNormal _ x => mkobs (rev (sout x)) (rev (s_loads (ss x))) ObOk
-      | QRaised (SXErr er) x =>
+      | QRaised (SXErr er) x | QFatal (SXErr er) x =>
         mkobs (rev (sout x)) (rev (s_loads (ss x)))
               (ObDead (kind_after_roundtrip (e_kind er)) ("Unhandled " ++ kind_class (e_kind er) ++ ": " ++ first_line (e_msgs er)))
-      | QRaised (SXVal v) x =>
+      | QRaised (SXVal v) x | QFatal (SXVal v) x =>
         mkobs (rev (sout x)) (rev (s_loads (ss x))) (ObDead "RuntimeError" ("Unhandled exception: " ++ display_s v))
       | QFuel => mkobs [] [] ObFuel
       | QIll w => mkobs [] [] (ObIll w)
@@ -670,6 +703,12 @@ End SpecEval.
 
 Definition catch_text : string :=
   "catch e { print(type(e)); if type(e) == String { print(e); } else { print(e.context); } }".
+
+Fixpoint render_fiber (k : nat) (inner : string) : string :=
+  match k with
+  | O => inner
+  | S k' => "Fiber.new(|| " ++ render_fiber k' inner ++ ").call()"
+  end.
 
 Fixpoint render_stmt (s : stmt) : string :=
   let fix render_list (l : list stmt) : string :=
@@ -693,6 +732,7 @@ Fixpoint render_stmt (s : stmt) : string :=
     | 0%N => "print(type(1));" | 1%N => "print(Vec);" | 2%N => "print(type(print));"
     | _ => "print(RuntimeError);"
     end
+  | SFiber d f => render_fiber (N.to_nat d) (fn_name f ++ "()") ++ ";"
   | STry body => "try { " ++ render_list body ++ "} " ++ catch_text
   | SBlock body => "{ " ++ render_list body ++ "}"
   end.
@@ -750,6 +790,7 @@ Fixpoint wf_stmt (nmods : nat) (s : stmt) : bool :=
   | SImport p a => negb (N.eqb p 0) && Nat.ltb (N.to_nat p) 5 && N.ltb a 100
   | STry body | SBlock body => wf_list body && negb (dup_alias [] body)
   | SUseBuiltin k => N.ltb k 4
+  | SFiber d _ => N.ltb d 8
   | _ => true
   end.
 
@@ -780,7 +821,7 @@ Definition wf_prog (prog : program) : bool :=
 
 (* ================================================================================================ *)
 (* wire format: one ';'-group per module: kind (0 ok, 1 missing, 2+k bad source k) then the statements
-     1 t | 3 x | 4 x n | 5 p a | 7 a x | 8 a x n | 10 f | 11 a f | 12 | 15 k | 13 <stmts> 0 | 14 <stmts> 0
+     1 t | 3 x | 4 x n | 5 p a | 7 a x | 8 a x n | 10 f | 11 a f | 12 | 15 k | 16 d f | 13 <stmts> 0 | 14 <stmts> 0
      20 x n (var) | 21 f <stmts> 0 (fn) *)
 Fixpoint parse_stmts (fuel : nat) (l : list N) : list stmt * list N :=
   match fuel with
@@ -799,6 +840,7 @@ Fixpoint parse_stmts (fuel : nat) (l : list N) : list stmt * list N :=
     | 11%N :: a :: f :: r => let '(ss, r') := parse_stmts fuel' r in (SCallAttr a f :: ss, r')
     | 12%N :: r => let '(ss, r') := parse_stmts fuel' r in (SThrow :: ss, r')
     | 15%N :: k :: r => let '(ss, r') := parse_stmts fuel' r in (SUseBuiltin k :: ss, r')
+    | 16%N :: d :: f :: r => let '(ss, r') := parse_stmts fuel' r in (SFiber d f :: ss, r')
     | 13%N :: r =>
       let '(body, r1) := parse_stmts fuel' r in
       let '(ss, r2) := parse_stmts fuel' r1 in (STry body :: ss, r2)
@@ -821,6 +863,7 @@ Definition parse_one (fuel' : nat) (l : list N) : option (stmt * list N) :=
     | 11%N :: a :: f :: r => Some (SCallAttr a f, r)
     | 12%N :: r => Some (SThrow, r)
     | 15%N :: k :: r => Some (SUseBuiltin k, r)
+    | 16%N :: d :: f :: r => Some (SFiber d f, r)
     | 13%N :: r => let '(body, r1) := parse_stmts fuel' r in Some (STry body, r1)
     | 14%N :: r => let '(body, r1) := parse_stmts fuel' r in Some (SBlock body, r1)
     | _ => None
@@ -857,10 +900,10 @@ Definition default_fuel : nat := 3000.
 
 (* one case of the correspondence check:  mech @ spec @ rendered sources *)
 Definition run_case (cm : list (list (list string))) (builtin_names core_names : list name) (frames_max : N)
-           (hit_checks_loading builtins_guarded : bool) (w : string) : string :=
+           (hit_checks_loading builtins_guarded loading_walks_chain : bool) (w : string) : string :=
   let prog := parse_prog w in
   if wf_prog prog then
-    eval_mech prog cm builtin_names (N.to_nat frames_max) hit_checks_loading builtins_guarded default_fuel core_names
+    eval_mech prog cm builtin_names (N.to_nat frames_max) hit_checks_loading builtins_guarded loading_walks_chain default_fuel core_names
     ++ "@" ++ eval_spec prog (builtin_names ++ core_names) (N.to_nat frames_max) default_fuel
     ++ "@" ++ render prog
   else "ILLFORMED".
